@@ -12,11 +12,11 @@ impl StdFile {
     pub uninterp spec fn pos(&self) -> int;
     pub uninterp spec fn log(&self) -> Seq<(int, RecordHeader)>;
     #[verifier::external_body]
-    pub fn write_all_vec(&mut self, buf: &Vec<u8>) -> (r: Result<(), VErr>)
+    pub fn write_all_vec(&mut self, buf: &Vec<u8>) -> (r: Result<(), TErr>)
         ensures r.is_ok() ==> final(self).pos() == old(self).pos() + buf@.len() && final(self).log() == old(self).log(),
     { unimplemented!() }
     #[verifier::external_body]
-    pub fn write_all_bytes(&mut self, buf: &Bytes) -> (r: Result<(), VErr>)
+    pub fn write_all_bytes(&mut self, buf: &Bytes) -> (r: Result<(), TErr>)
         ensures r.is_ok() ==> final(self).pos() == old(self).pos() + buf@.len() && final(self).log() == old(self).log(),
     { unimplemented!() }
 }
@@ -26,23 +26,23 @@ impl Bytes {
 }
 // bincode::serialize_into(&mut file, &header)
 #[verifier::external_body]
-pub fn ser_header_into_file(f: &mut StdFile, h: &RecordHeader) -> (r: Result<(), VErr>)
+pub fn ser_header_into_file(f: &mut StdFile, h: &RecordHeader) -> (r: Result<(), TErr>)
     ensures r.is_ok() ==> final(f).pos() == old(f).pos() + header_len(*h)
         && final(f).log() == old(f).log().push((old(f).pos(), *h)),
 { unimplemented!() }
 #[verifier::external_body]
-pub fn header_serialized_size(h: &RecordHeader) -> (r: Result<u64, VErr>)
+pub fn header_serialized_size(h: &RecordHeader) -> (r: Result<u64, TErr>)
     ensures r.is_ok() ==> r->Ok_0 == header_len(*h), header_len(*h) <= 0x1_0000
 { unimplemented!() }
 #[verifier::external_body]
-pub fn ser_meta(m: &Meta) -> (r: Result<Vec<u8>, VErr>)
+pub fn ser_meta(m: &Meta) -> (r: Result<Vec<u8>, TErr>)
     ensures r.is_ok() ==> r->Ok_0@.len() == meta_len(*m)
 { unimplemented!() }
 impl RecordHeader {
     // Header::with_blob_offset (src/record/record.rs): sets the offset and recomputes the header
     // checksum; every other field unchanged (same serialized length)
     #[verifier::external_body]
-    pub fn with_blob_offset(self, blob_offset: u64) -> (r: Result<RecordHeader, VErr>)
+    pub fn with_blob_offset(self, blob_offset: u64) -> (r: Result<RecordHeader, TErr>)
         ensures r.is_ok() ==> r->Ok_0.blob_offset == blob_offset && r->Ok_0.key == self.key
             && r->Ok_0.timestamp == self.timestamp && r->Ok_0.flags == self.flags
             && r->Ok_0.data_size == self.data_size && r->Ok_0.meta_size == self.meta_size
@@ -51,3 +51,37 @@ impl RecordHeader {
 }
 #[verifier::external_body]
 pub fn cache_push(c: &mut Vec<Record>, r: Record) { unimplemented!() }
+
+// anyhow::Error as the tools inspect it: ToolsError variants (src/tools/error.rs) or anything else
+pub enum ToolsError { RecordValidation(()), RecordHeaderValidation(()), SkipRecordData(()), Other(()) }
+pub enum TErr { Tools(ToolsError), Io, Misc }
+impl TErr {
+    // anyhow::Error::downcast_ref::<ToolsError>()
+    pub fn downcast_tools(&self) -> (r: Option<&ToolsError>)
+        ensures r == (match self { TErr::Tools(e) => Some(e), _ => None::<&ToolsError> })
+    { match self { TErr::Tools(e) => Some(e), _ => None } }
+}
+impl StdFile {
+    // std::io::Seek::seek(SeekFrom::Start(p))
+    #[verifier::external_body]
+    pub fn seek_start(&mut self, p: u64) -> (r: Result<u64, TErr>)
+        ensures r.is_ok() ==> final(self).pos() == p, final(self).log() == old(self).log()
+    { unimplemented!() }
+}
+impl RecordHeader {
+    // accessors of record::Header (verified in unit `record`)
+    #[verifier::external_body]
+    pub fn data_size(&self) -> (r: u64) ensures r == self.data_size { unimplemented!() }
+    #[verifier::external_body]
+    pub fn meta_size(&self) -> (r: u64) ensures r == self.meta_size { unimplemented!() }
+    #[verifier::external_body]
+    pub fn meta_offset(&self) -> (r: u64)
+        requires self.blob_offset + header_len(*self) <= u64::MAX
+        ensures r == self.blob_offset + header_len(*self) { unimplemented!() }
+    #[verifier::external_body]
+    pub fn data_offset(&self) -> (r: u64)
+        requires self.blob_offset + header_len(*self) + self.meta_size <= u64::MAX
+        ensures r == self.blob_offset + header_len(*self) + self.meta_size { unimplemented!() }
+}
+// "the record passed header magic+CRC and data CRC" (ADVERSARIAL input: any bytes may be read)
+pub uninterp spec fn record_intact(r: Record) -> bool;
